@@ -81,6 +81,10 @@ func genDeclsKinds(t *Tape, envProb int, stringOnly bool) *DeclSet {
 				d.EnvVars = []int{ds.Opts[i-1].EnvVars[0]} // two declarations backed by one variable
 			}
 			d.EnvPad = []string{"", "", "", " ", "\n", "\t"}[t.Draw(6)]
+			if t.Draw(5) == 0 {
+				d.EnvVars = append(d.EnvVars, 7) // a second name, separated by any amount of white space
+				d.EnvSep = []string{"", "  ", "\t", " \n "}[t.Draw(4)]
+			}
 		}
 		if t.Draw(3) == 0 {
 			ek := elemKind(d.Kind)
